@@ -110,6 +110,8 @@ fn unify(a: &Ty, b: &Ty) -> Ty {
 pub struct EnumInfo {
     pub module: String,
     pub variants: Vec<(String, Vec<syn::Type>)>,
+    /// variants with named fields: variant → field names in declaration order
+    pub field_names: BTreeMap<String, Vec<String>>,
 }
 #[derive(Clone, Debug)]
 pub struct StructInfo {
@@ -134,6 +136,8 @@ pub struct Registry {
     pub structs: BTreeMap<String, StructInfo>,
     pub consts: BTreeMap<String, (String, syn::Type)>,
     pub fns: BTreeMap<String, FnInfo>,
+    /// other Rust names of a translated enum (`ArrowDataType` → `DataType`)
+    pub aliases: BTreeMap<String, String>,
 }
 
 #[derive(Clone, Debug, Default)]
@@ -149,6 +153,12 @@ pub struct ItemCfg {
     pub methods: BTreeMap<String, MethodCfg>,
     /// `"i64 as f64"` → name of the extra function parameter
     pub casts: BTreeMap<String, String>,
+    /// `"f64 +"` → name of the extra function parameter standing for that float operation
+    pub ops: BTreeMap<String, String>,
+    /// free function outside the subset → extra function parameter (`lean` = parameter name, `ret` = Rust type)
+    pub calls: BTreeMap<String, MethodCfg>,
+    /// one-argument wrapper calls that are erased (`ordered_float::OrderedFloat`)
+    pub erase_calls: BTreeSet<String>,
 }
 
 const LEAN_RESERVED: &[&str] = &[
@@ -300,6 +310,8 @@ pub struct Cx<'a> {
     untyped: Vec<String>,
     err_n: usize,
     arm_name: Option<String>,
+    /// enums whose variants are in scope unqualified (`use DataType::*;` inside the translated body)
+    globs: Vec<String>,
     pub deps: BTreeSet<String>,
 }
 
@@ -327,6 +339,7 @@ impl<'a> Cx<'a> {
             untyped: vec![],
             err_n: 0,
             arm_name: None,
+            globs: vec![],
             deps: Default::default(),
         }
     }
@@ -365,6 +378,7 @@ impl<'a> Cx<'a> {
             syn::Type::Path(p) => {
                 let seg = p.path.segments.last().ok_or("empty type path")?;
                 let name = seg.ident.to_string();
+                let name = self.reg.aliases.get(&name).cloned().unwrap_or(name);
                 let generic_arg = |i: usize| -> Option<&syn::Type> {
                     match &seg.arguments {
                         syn::PathArguments::AngleBracketed(a) => a.args.iter().nth(i).and_then(|g| match g {
@@ -471,6 +485,14 @@ impl<'a> Cx<'a> {
                     return Ok("none".into());
                 }
                 if name.chars().next().map_or(false, |c| c.is_uppercase()) {
+                    if self.glob_enum_of(&name).is_some() {
+                        let path: syn::Path = syn::parse_str(&name).map_err(|e| e.to_string())?;
+                        let (l, payload) = self.variant(&path)?;
+                        if !payload.is_empty() {
+                            return Err(format!("pattern `{}`: variant used without its payload", name));
+                        }
+                        return Ok(l);
+                    }
                     return Err(format!("pattern `{}`: matching on a constant or imported variant is outside the subset", name));
                 }
                 let lean = lean_ident(&name);
@@ -513,6 +535,46 @@ impl<'a> Cx<'a> {
                     }
                 }
             }
+            Pat::Struct(ps) => {
+                // `Enum::Variant { field: pat, .. }` → positional constructor pattern in declaration order
+                let (lean, payload) = self.variant(&ps.path)?;
+                let segs: Vec<String> = ps.path.segments.iter().map(|s| s.ident.to_string()).collect();
+                let vname = segs[segs.len() - 1].clone();
+                let mut en = if segs.len() >= 2 { segs[segs.len() - 2].clone() } else { self.glob_enum_of(&vname).unwrap_or_default() };
+                if en == "Self" {
+                    en = self.self_ty.clone().unwrap_or_default();
+                }
+                let en = self.reg.aliases.get(&en).cloned().unwrap_or(en);
+                let names = self
+                    .reg
+                    .enums
+                    .get(&en)
+                    .and_then(|e| e.field_names.get(&vname).cloned())
+                    .ok_or(format!("pattern `{}`: `{}` is not a variant with named fields", toks(p), vname))?;
+                for f in &ps.fields {
+                    let Member::Named(m) = &f.member else {
+                        return Err(format!("pattern `{}`: unnamed member", toks(p)));
+                    };
+                    if !names.iter().any(|n| m == n) {
+                        return Err(format!("pattern `{}`: no field `{}`", toks(p), m));
+                    }
+                }
+                let mut s = lean;
+                for (n, t) in names.iter().zip(payload) {
+                    let sub = ps.fields.iter().find(|f| matches!(&f.member, Member::Named(m) if m == n));
+                    let x = match sub {
+                        Some(f) => {
+                            let t = self.ty(&t)?;
+                            self.pat(&f.pat, &t, false)?
+                        }
+                        None if ps.rest.is_some() => "_".to_string(),
+                        None => return Err(format!("pattern `{}`: field `{}` is not matched", toks(p), n)),
+                    };
+                    s.push(' ');
+                    s.push_str(&if x.contains(' ') { format!("({})", x) } else { x });
+                }
+                Ok(s)
+            }
             Pat::Tuple(t) => {
                 let mut parts = vec![];
                 for (i, e) in t.elems.iter().enumerate() {
@@ -546,19 +608,46 @@ impl<'a> Cx<'a> {
     /// `Enum::Variant` / `Self::Variant` → (Lean constructor, payload types).
     fn variant(&mut self, path: &syn::Path) -> R<(String, Vec<syn::Type>)> {
         let segs: Vec<String> = path.segments.iter().map(|s| s.ident.to_string()).collect();
-        if segs.len() < 2 {
-            return Err(format!("cannot resolve `{}` to an enum variant", toks(path)));
-        }
-        let mut en = segs[segs.len() - 2].clone();
+        let v = &segs[segs.len() - 1];
+        let mut en = if segs.len() < 2 {
+            // unqualified: a variant brought into scope by `use Enum::*;` inside the translated body
+            self.glob_enum_of(v).ok_or(format!("cannot resolve `{}` to an enum variant", toks(path)))?
+        } else {
+            segs[segs.len() - 2].clone()
+        };
         if en == "Self" {
             en = self.self_ty.clone().ok_or("`Self` outside an impl")?;
         }
-        let v = &segs[segs.len() - 1];
+        let en = self.reg.aliases.get(&en).cloned().unwrap_or(en);
         let info = self.reg.enums.get(&en).ok_or(format!("enum `{}` is not among the translated items", en))?.clone();
         let (_, payload) =
             info.variants.iter().find(|x| &x.0 == v).ok_or(format!("enum `{}` has no variant `{}`", en, v))?;
         let q = self.qual(&en, &info.module);
         Ok((format!("{}.{}", q, v), payload.clone()))
+    }
+
+    /// The glob-imported enum (`use E::*;`) that has a variant of this name.
+    fn glob_enum_of(&self, variant: &str) -> Option<String> {
+        self.globs
+            .iter()
+            .find(|g| self.reg.enums.get(*g).map_or(false, |e| e.variants.iter().any(|x| x.0 == variant)))
+            .cloned()
+    }
+
+    /// `use Enum::*;` inside a translated body: remember the enum, emit nothing.
+    fn use_stmt(&mut self, u: &syn::ItemUse) -> R<()> {
+        if let syn::UseTree::Path(p) = &u.tree {
+            if let syn::UseTree::Glob(_) = &*p.tree {
+                let name = p.ident.to_string();
+                let name = self.reg.aliases.get(&name).cloned().unwrap_or(name);
+                if self.reg.enums.contains_key(&name) {
+                    self.globs.push(name);
+                    return Ok(());
+                }
+                return Err(format!("`use {}::*`: `{}` is not a translated enum", name, name));
+            }
+        }
+        Err(format!("unsupported `use` inside a body: `{}`", toks(u)))
     }
 
     // ------------------------------------------------------------ expressions
